@@ -127,8 +127,7 @@ void h_memmove(void) { VF_INPUT(unsigned char, so); VF_INPUT(unsigned char, dof)
 
 /*@GROUP name=wcs props=C18,C02 kind=B unwind=8 bound=wcslen<=4@*/
 void h_wcs(void) { STR(wch, a, la); STR(wch, b, lb); VF_INPUT(unsigned long, n); VF_INPUT(wch, ch); VF_INPUT(unsigned char, g); __CPROVER_assume(g <= la);
-  /* wide characters restricted to the non-negative range so that the subtraction-based comparison cannot overflow (see wcs_full) */
-  for (int i = 0; i < LMAX; ++i) __CPROVER_assume(a_in[i] >= 0 && b_in[i] >= 0); __CPROVER_assume(ch >= 0);
+  /* wide characters range over ALL wchar_t values (wchar_t is a signed 32-bit type here): comparing by subtraction would overflow */
   VF_ASSERT(w_wcslen(a) == la, "wcslen");
   VF_ASSERT(SGN(w_wcscmp(a, b)) == w_r_cmp(a_in, b_in, LMAX + 1, 1) && SGN(w_wcsncmp(a, b, n)) == w_r_cmp(a_in, b_in, n, 1), "wcscmp/wcsncmp: sign of the first differing pair");
   long e = w_r_chr(a_in, la, ch), er = w_r_rchr(a_in, la, ch); const wch *r = w_wcschr(a, ch), *rr = w_wcsrchr(a, ch);
@@ -137,7 +136,6 @@ void h_wcs(void) { STR(wch, a, la); STR(wch, b, lb); VF_INPUT(unsigned long, n);
 
 /*@GROUP name=wcsspn props=C18,C02 kind=B unwind=8 bound=wcslen<=4 tier=thorough timeout=1200@*/
 void h_wcsspn(void) { STR(wch, a, la); STR(wch, b, lb); VF_INPUT(unsigned char, g); __CPROVER_assume(g <= la);
-  for (int i = 0; i < LMAX; ++i) __CPROVER_assume(a_in[i] >= 0 && b_in[i] >= 0);
   VF_ASSERT(w_wcsspn(a, b) == w_r_spn(a_in, la, b_in, lb, 1) && w_wcscspn(a, b) == w_r_spn(a_in, la, b_in, lb, 0), "wcsspn/wcscspn");
   unsigned long k = w_r_spn(a_in, la, b_in, lb, 0); VF_KNOWN(C18_strpbrk_no_match, k == la && la > 0); const wch *p = w_wcspbrk(a, b); VF_ASSERT(k == la ? p == 0 : p == a + k, "wcspbrk");
   wch *d = (wch *)VF_ALLOC(((unsigned long)la + 1) * sizeof(wch)); wch *rc = w_wcscpy(d, a); VF_ASSERT(rc == d && d[g] == a_in[g], "wcscpy into exactly wcslen+1 elements");
@@ -145,7 +143,6 @@ void h_wcsspn(void) { STR(wch, a, la); STR(wch, b, lb); VF_INPUT(unsigned char, 
 
 /*@GROUP name=wcsstr props=C18,C02 kind=B unwind=8 bound=wcslen<=4@*/
 void h_wcsstr(void) { STR(wch, h, lh); STR(wch, n, ln);
-  for (int i = 0; i < LMAX; ++i) __CPROVER_assume(h_in[i] >= 0 && n_in[i] >= 0);
   long e = w_r_str(h_in, lh, n_in, ln); VF_KNOWN(C18_strstr_suffix_only, ln == 0 || (e >= 0 && e + ln != lh)); const wch *r = w_wcsstr(h, n);
   VF_ASSERT(e < 0 ? r == 0 : r == h + e, "wcsstr: first occurrence of the needle as a substring");
   VF_REACH(); }
@@ -153,7 +150,6 @@ void h_wcsstr(void) { STR(wch, h, lh); STR(wch, n, ln);
 /*@GROUP name=wmem props=C18,C02 kind=B unwind=8 bound=n<=5@*/
 void h_wmem(void) { VF_INPUT(unsigned char, n); VF_INPUT(unsigned char, g); VF_INPUT(wch, c); __CPROVER_assume(n <= 5 && g < n);
   VF_BUF(wch, a, n, 5); VF_BUF(wch, b, n, 5); wch *d = (wch *)VF_ALLOC(n * sizeof(wch));
-  for (int i = 0; i < 5; ++i) __CPROVER_assume(a_in[i] >= 0 && b_in[i] >= 0);
   { _Bool z = 0; for (int i = 0; i < 5; ++i) if (i < n && a_in[i] == 0) z = 1; VF_KNOWN(C18_wmemcpy_stops_at_zero, z); }
   wch *r = w_wmemcpy(d, a, n); VF_ASSERT(r == d && d[g] == a_in[g], "wmemcpy copies all n elements (a zero element does not stop it)");
   { int d = 0; _Bool z = 0; while (d < 5 && d < n && a_in[d] == b_in[d]) { if (a_in[d] == 0) z = 1; ++d; }
@@ -275,8 +271,11 @@ void h_cwctype(void) { VF_INPUT(unsigned, c); __CPROVER_assume(c <= 0xFFFF || c 
   VF_ASSERT(ct_towlower(c) == (R_UPPER(v) ? c + 32 : c), "towlower"); VF_ASSERT(ct_towupper(c) == (R_LOWER(v) ? c - 32 : c), "towupper");
   VF_REACH(); }
 
-/*@GROUP name=div props=C18,C02 kind=B bound=|divisor|<=255 tier=thorough solver=kissat timeout=1500@*/
-void h_div(void) { VF_INPUT(int, x); VF_INPUT(int, y); __CPROVER_assume(y != 0 && y >= -255 && y <= 255 && !(x == (-2147483647 - 1) && y == -1)); int q, r; c_div(x, y, &q, &r);
+/* div / ldiv / lldiv are one-line wrappers around x / y and x % y.  Two symbolic dividers side by side (the code's and the
+ * specification's) are SAT-hard at 32/64 bits (1500 s were not enough, also not with a constant divisor), so the wide
+ * instantiations are checked on a value window; etl::idiv at 8 bits (family bits) covers the full domain of the same expression. */
+/*@GROUP name=div props=C18,C02 kind=B bound=|x|<4096,|y|<=64 tier=thorough solver=kissat timeout=600@*/
+void h_div(void) { VF_INPUT(int, x); VF_INPUT(int, y); __CPROVER_assume(y != 0 && y >= -64 && y <= 64 && x > -4096 && x < 4096); int q, r; c_div(x, y, &q, &r);
   VF_ASSERT(q == x / y && r == x % y, "div(int): {x / y, x % y}");
   VF_REACH(); }
 
@@ -286,10 +285,15 @@ void h_labs(void) {
   VF_INPUT(long long, b); __CPROVER_assume(b != (-9223372036854775807LL - 1)); VF_ASSERT(c_llabs(b) == (b < 0 ? -b : b), "llabs");
   VF_REACH(); }
 
-/*@GROUP name=ldiv props=C18,C02 kind=F tier=thorough timeout=1500@*/
-void h_ldiv(void) { VF_INPUT(long, x); VF_INPUT(long, y); __CPROVER_assume(y != 0 && !(x == (-9223372036854775807L - 1) && y == -1)); long q, r; long long q2, r2;
+/*@GROUP name=ldiv props=C18,C02 kind=B bound=|x|<4096,|y|<=64 tier=thorough solver=kissat timeout=600@*/
+void h_ldiv(void) { VF_INPUT(long, x); VF_INPUT(long, y); __CPROVER_assume(y != 0 && y >= -64 && y <= 64 && x > -4096 && x < 4096); long q, r; long long q2, r2;
   c_ldiv(x, y, &q, &r); VF_ASSERT(q == x / y && r == x % y, "ldiv");
   c_div_l(x, y, &q, &r); VF_ASSERT(q == x / y && r == x % y, "div(long)");
   c_lldiv(x, y, &q2, &r2); VF_ASSERT(q2 == x / y && r2 == x % y, "lldiv");
   c_div_ll(x, y, &q2, &r2); VF_ASSERT(q2 == x / y && r2 == x % y, "div(long long)");
+  VF_REACH(); }
+/*@GROUP name=div_limits props=C18,C02 kind=F tier=thorough@*/
+void h_div_limits(void) { VF_INPUT(unsigned char, sel); VF_INPUT_BOOL(neg); long x = sel == 0 ? 9223372036854775807L : sel == 1 ? (-9223372036854775807L - 1) : sel == 2 ? 2147483648L : -2147483649L; long y = neg ? -7 : 7; long q, r; long long q2, r2;
+  c_ldiv(x, y, &q, &r); VF_ASSERT(q == x / y && r == x % y, "ldiv at the type limits"); c_lldiv(x, y, &q2, &r2); VF_ASSERT(q2 == x / y && r2 == x % y, "lldiv at the type limits");
+  int xi = sel == 0 ? 2147483647 : (-2147483647 - 1); int qi, ri; c_div(xi, neg ? -7 : 7, &qi, &ri); VF_ASSERT(qi == xi / (neg ? -7 : 7) && ri == xi % (neg ? -7 : 7), "div(int) at the type limits");
   VF_REACH(); }
